@@ -221,6 +221,20 @@ def check_call(res, prefix, call, P_all, edges, case):
                     )
                 if on.any():
                     res.cls("edge-has-cell-on-segment")
+            elif ek == "subpixel":
+                # exclusion (i) concerns the projection along the edge only: at the SOURCE keypoint itself the
+                # projection is 0 whatever the divisor, so a cell coinciding with the source is at distance 0 and
+                # the field there must be the full unit vector (weight 1)
+                dsrc = np.hypot(cells[..., 0] - src[0], cells[..., 1] - src[1])
+                at = dsrc <= NEAR
+                if at.any():
+                    res.cls("subpixel-edge-source-on-a-cell")
+                    if w[at].min() < 1.0 - TOL_ON:
+                        idx = np.argwhere(at & (w < 1.0 - TOL_ON))[0]
+                        res.fail(
+                            f"{prefix}:weight-at-source:subpixel-edge",
+                            f"cell ({idx[0]},{idx[1]}) coincides with the source keypoint of a {L:.3g} px edge but |F.u|={w[tuple(idx)]:.6g} (unit vector expected); {where}",
+                        )
             # monotone in the reference distance
             eps = EPS_D + (L if ek == "subpixel" else 0.0)
             order = np.argsort(dist, axis=None, kind="stable")
